@@ -238,8 +238,8 @@ def start (env : UrlEnv) (startURL : Loc) (hint : Int) (a : Answer) : Except WEr
     | .error e => (.error e, [r], [])
     | .ok loc =>
       (.ok { chunkSize := chunkSizeFromResponse a chunkSize             -- :186
-             chunk := [], allocated := true                             -- :187 `make([]byte, 0, chunkSize)`
-             location := loc }, [r], [chunkSize])
+             chunk := [], allocated := true                             -- `make([]byte, 0, min(chunkSize, defaultChunkSize))` (fix F38)
+             location := loc }, [r], [min chunkSize defaultChunkSize])
 
 /-- `PushBlobChunkedResume` (:192-273) -/
 def resume (env : UrlEnv) (id : Bytes) (offset hint : Int) (a : Answer) : Except WErr W × List Req :=
